@@ -249,9 +249,12 @@ def rule_accessors(ctx):
                     for nid in nids:
                         for (tn, lab) in cd.transitive(nid):
                             t = cfg.nodes[tn].ast
+                            want_true = True
+                            if isinstance(t, ast.UnaryOp) and isinstance(t.op, ast.Not):
+                                t, want_true = t.operand, False
                             if (cfg.nodes[tn].kind == "test" and isinstance(t, ast.Call) and isinstance(t.func, ast.Name)
                                     and t.func.id == "isinstance" and t.args and isinstance(t.args[0], ast.Name)
-                                    and t.args[0].id == key and lab.startswith("true")):
+                                    and t.args[0].id == key and lab.startswith("true") == want_true):
                                 guarded = True
                     if not guarded:
                         problems.append((c, "list.%s(key) is not confined to integer/slice keys" % mname))
@@ -350,6 +353,9 @@ def rule_compare(ctx):
     for node in cfg.nodes:
         if node.kind == "stmt" and isinstance(node.ast, ast.Return):
             v = node.ast.value
+            if isinstance(v, ast.Call) and isinstance(v.func, ast.Name) and v.func.id == "bool" and len(v.args) == 1 and not v.keywords:
+                v = v.args[0]      # bool(a == b)
+                node.ast._unwrapped = v
             if isinstance(v, ast.Constant) and v.value is True:
                 rets_true.append(node)
             elif isinstance(v, ast.Constant) and v.value is False:
@@ -361,8 +367,9 @@ def rule_compare(ctx):
     branches = {"folded": 0, "plain": 0}
     for node in rets_true:
         tests = [(cfg.nodes[tn].ast, lab) for (tn, lab) in cd.transitive(node.id) if cfg.nodes[tn].kind == "test"]
-        if isinstance(node.ast.value, ast.Compare):
-            tests.append((node.ast.value, "true"))
+        rv = getattr(node.ast, "_unwrapped", node.ast.value)
+        if isinstance(rv, ast.Compare):
+            tests.append((rv, "true"))
         eqs = []
         tr = None
         for t, lab in tests:
@@ -726,8 +733,20 @@ def rule_suffix_algo(ctx):
     cfg = build_cfg(p, fi)
     for node in cfg.nodes:
         if node.kind == "stmt" and isinstance(node.ast, ast.Return):
-            problems.append((node.ast, "early return inside assign_duplicate_suffixes: some duplicates are left "
-                                       "un-numbered"))
+            # a guard-clause `return` that ends the "check all mnemonics" branch (after the recursive loop) is the if/else in
+            # another spelling
+            par = getattr(node.ast, "_parent", None)
+            ok_guard = False
+            if isinstance(par, ast.If) and node.ast in par.body and par.body[-1] is node.ast and getattr(par, "_parent", None) is fi.node:
+                t = par.test
+                is_none = isinstance(t, ast.Compare) and len(t.ops) == 1 and isinstance(t.ops[0], ast.Is) and isinstance(t.comparators[0], ast.Constant) \
+                    and t.comparators[0].value is None and isinstance(t.left, ast.Name) and t.left.id in fi.params()
+                recurses = any(isinstance(c, ast.Call) and isinstance(c.func, ast.Attribute) and c.func.attr == fi.name
+                               for st_ in par.body[:-1] for c in ast.walk(st_))
+                ok_guard = is_none and recurses and (node.ast.value is None)
+            if not ok_guard:
+                problems.append((node.ast, "early return inside assign_duplicate_suffixes: some duplicates are left "
+                                           "un-numbered"))
     if problems:
         seen = set()
         for node, msg in problems:
@@ -1042,6 +1061,14 @@ def rule_pk_ctor(ctx):
                     ok = (isinstance(v, ast.Name) and v.id == "data") or (
                         isinstance(v, ast.Call) and ast.unparse(v.func).endswith("asarray") and len(v.args) == 1 and not v.keywords
                         and isinstance(v.args[0], ast.Name) and v.args[0].id == "data")
+                    if not ok and isinstance(v, ast.Call) and ast.unparse(v.func).endswith("asarray") and len(v.args) == 1 and not v.keywords \
+                            and isinstance(v.args[0], ast.IfExp):
+                        # np.asarray([] if data is None else data): the default is substituted, a given array is passed unchanged
+                        ie = v.args[0]
+                        branches = [ie.body, ie.orelse]
+                        ok = any(isinstance(b, ast.Name) and b.id == "data" for b in branches) and any(
+                            isinstance(b, (ast.List, ast.Tuple)) and not b.elts for b in branches) and "data" in ast.unparse(ie.test) \
+                            and "None" in ast.unparse(ie.test)
                     if not ok:
                         problems.append("self.data is stored as `%s`: a dtype conversion in the constructor changes the array of "
                                         "every pickled/deep-copied curve (e.g. numeric strings or integers become float64)" % unparse(v))
